@@ -163,7 +163,13 @@ func (f *Field) Tag(name string) (string, bool) {
 // ---------------------------------------------------------------------------
 // Destination types
 
-func TypeOf(n *Node) reflect.Type {
+// TypeOfRev is TypeOf with the fields of every struct declared in reverse
+// order: another destination type that matches the schema equally well.
+func TypeOfRev(n *Node) reflect.Type { return typeOf(n, true) }
+
+func TypeOf(n *Node) reflect.Type { return typeOf(n, false) }
+
+func typeOf(n *Node, rev bool) reflect.Type {
 	switch n.Kind {
 	case "string":
 		return reflect.TypeOf("")
@@ -176,16 +182,16 @@ func TypeOf(n *Node) reflect.Type {
 	case "time":
 		return timeType
 	case "slice":
-		return reflect.SliceOf(TypeOf(n.Elem))
+		return reflect.SliceOf(typeOf(n.Elem, rev))
 	case "ptr":
-		return reflect.PointerTo(TypeOf(n.Elem))
+		return reflect.PointerTo(typeOf(n.Elem, rev))
 	case "custom":
 		if n.CT == "int" {
 			return reflect.TypeOf(int(0))
 		}
 		return reflect.TypeOf("")
 	case "pre":
-		return TypeOf(n.Elem)
+		return typeOf(n.Elem, rev)
 	case "struct":
 		fs := make([]reflect.StructField, 0, len(n.Fields))
 		for _, f := range n.Fields {
@@ -196,7 +202,12 @@ func TypeOf(n *Node) reflect.Type {
 				}
 				fmt.Fprintf(&tag, "%s:%q", kv.K, kv.V.S)
 			}
-			fs = append(fs, reflect.StructField{Name: GoName(f.Key), Type: TypeOf(f.N), Tag: reflect.StructTag(tag.String())})
+			fs = append(fs, reflect.StructField{Name: GoName(f.Key), Type: typeOf(f.N, rev), Tag: reflect.StructTag(tag.String())})
+		}
+		if rev {
+			for i, j := 0, len(fs)-1; i < j; i, j = i+1, j-1 {
+				fs[i], fs[j] = fs[j], fs[i]
+			}
 		}
 		return reflect.StructOf(fs)
 	}
@@ -515,11 +526,15 @@ func mutLeaf(v reflect.Value) {
 			v.Set(reflect.ValueOf(v.Interface().(time.Time).Add(time.Hour)))
 			return
 		}
+		// the alphabetically first field, so that the effect does not depend on the declaration order of the type
+		best := -1
 		for i := 0; i < v.NumField(); i++ {
-			if v.Field(i).CanSet() {
-				mutLeaf(v.Field(i))
-				return
+			if v.Field(i).CanSet() && (best < 0 || v.Type().Field(i).Name < v.Type().Field(best).Name) {
+				best = i
 			}
+		}
+		if best >= 0 {
+			mutLeaf(v.Field(best))
 		}
 	case reflect.Slice:
 		if v.Len() > 0 {
